@@ -122,6 +122,29 @@ def one(ctx, rng, xr, wavespectra, attrs, cl, samples, forced=None):
     else:
         rec.bad("history", key, {"history": trace, "observed": obs, "difference": why, "object": "Dataset" if use_ds else "DataArray"},
                 classify(trace, obs, use_ds, why))
+    # structural probe: a Partition object that already served a rule-based split must partition what the array holds now
+    if not use_ds and rng.random() < 0.35:
+        try:
+            fv_ = np.sort(np.asarray(obj["freq"].values, dtype="float64"))
+            p_ = obj.spec.partition
+            first = str(rng.choice(["ptm5", "ptm4", "bbox"]))
+            if first == "ptm5":
+                p_.ptm5(float(0.5 * (fv_[0] + fv_[-1])))
+            elif first == "ptm4":
+                p_.ptm4(xr.DataArray(10.0), xr.DataArray(200.0), xr.DataArray(50.0))
+            else:
+                p_.bbox([{"fmax": float(0.5 * (fv_[0] + fv_[-1]))}])
+            if rng.random() < 0.5:
+                obj.values[...] = obj.values * 1.7 + 0.01          # in-place edit between the two calls
+            r1 = p_.ptm3(parts=2)
+            r2 = obj.spec.partition.ptm3(parts=2)
+            kk = "%s|dirs=%s" % (first, "ascending" if np.all(np.diff(obj["dir"].values) > 0) else "other")
+            if identical(r1, r2, xr)[0]:
+                rec.ok("partition_object_reuse", kk)
+            else:
+                rec.bad("partition_object_reuse", kk, {"history": trace, "first_call": first}, "partition-object-keeps-earlier-spectra")
+        except Exception as e:
+            rec.skip("partition_object_reuse", "raised %s" % type(e).__name__)
     # structural probe: Dataset accessor agrees with the accessor of its efth variable *now*
     if use_ds and obs["name"] in ("hs", "tm01", "tm02", "dm", "oned", "dspr"):
         try:
@@ -278,8 +301,10 @@ def do_step(step, rng, xr, wavespectra, attrs, obj, f, th, lnames, lsizes, sampl
             pass
     elif step == "unknown_stat":
         try:
-            obj.spec.stats(["hs", str(rng.choice(["nope", "hsig", "tpeak"]))])
-        except ValueError:
+            fv_ = np.sort(np.asarray(obj["freq"].values, dtype="float64"))
+            kw_ = {} if rng.random() < 0.5 else {"fmin": float(fv_[0] + 0.2 * (fv_[-1] - fv_[0])), "fmax": float(fv_[0] + 0.7 * (fv_[-1] - fv_[0]))}
+            obj.spec.stats(["hs", str(rng.choice(["nope", "hsig", "tpeak", "dd"]))], **kw_)
+        except Exception:
             pass
     elif step == "crsd_other":
         ff = np.linspace(0.05, 0.4, 5)
